@@ -1360,16 +1360,30 @@ class FileBuilder:
         suboperations of the specified cached ``ComplexOperation``
         entry. If this raises an exception, then it has no effect on
         ``_build_dirs``.
+
+        Returns:
+            list<str>: The filenames we passed to
+                ``_build_dirs.started_building_file``, in order. See
+                ``_unapply_cached_suboperations``.
         """
         applied_filenames = []
         try:
             self._apply_cached_suboperations_helper(
                 operation, applied_filenames)
         except Exception:
-            # Undo all of the calls to started_building_file
-            for filename in reversed(applied_filenames):
-                self._build_dirs.error_building_file(filename)
+            self._unapply_cached_suboperations(applied_filenames)
             raise
+        return applied_filenames
+
+    def _unapply_cached_suboperations(self, applied_filenames):
+        """Undo the effect of ``_apply_cached_suboperations``.
+
+        Arguments:
+            applied_filenames (list<str>): The return value of
+                ``_apply_cached_suboperations``.
+        """
+        for filename in reversed(applied_filenames):
+            self._build_dirs.error_building_file(filename)
 
     def _apply_cached_suboperations_helper(self, operation, applied_filenames):
         """Implementation of ``_apply_cached_suboperations``.
@@ -1721,14 +1735,19 @@ class FileBuilder:
         if file_comparison_result is None:
             return False
 
-        self._apply_cached_suboperations(cached_operation)
+        applied_filenames = self._apply_cached_suboperations(cached_operation)
         operation.file_comparison_result = file_comparison_result
         operation.suboperations = cached_operation.suboperations
         operation.return_value = cached_operation.return_value
 
         with self._lock:
             operation.is_finished = True
-        self._new_cache.use_cached_operation(operation)
+        try:
+            self._new_cache.use_cached_operation(operation)
+        except Exception:
+            # e.g. another thread performed one of the suboperations
+            self._unapply_cached_suboperations(applied_filenames)
+            raise
         return True
 
     def _rebuild_file(self, func):
@@ -1848,13 +1867,19 @@ class FileBuilder:
 
         cached_operation = self._subbuild_cache_lookup(subbuild_key)
         if cached_operation is not None:
-            self._apply_cached_suboperations(cached_operation)
+            applied_filenames = self._apply_cached_suboperations(
+                cached_operation)
             operation.suboperations = cached_operation.suboperations
             operation.return_value = cached_operation.return_value
 
             with self._lock:
                 operation.is_finished = True
-            self._new_cache.use_cached_operation(operation)
+            try:
+                self._new_cache.use_cached_operation(operation)
+            except Exception:
+                # e.g. another thread performed one of the suboperations
+                self._unapply_cached_suboperations(applied_filenames)
+                raise
         else:
             description = 'the subbuild function {:s}'.format(
                 operation.func_name)
